@@ -237,7 +237,7 @@ fn history_fault(rng: &mut Rng, ops: &[Op]) -> Option<(String, Vec<Op>, usize, (
 
 pub fn c08(ctx: &mut Ctx) {
     let scenario = "core.c08";
-    let n_hist: u64 = if ctx.is_quick() { 1500 } else { 40_000 };
+    let n_hist: u64 = if ctx.is_quick() { 6_000 } else { 100_000 };
     for k in 0..n_hist {
         if !ctx.mine(k) {
             continue;
@@ -307,7 +307,7 @@ pub fn c09(ctx: &mut Ctx) {
             }
         }
     }
-    let n_inst: u64 = if ctx.is_quick() { 600 } else { 20_000 };
+    let n_inst: u64 = if ctx.is_quick() { 4_000 } else { 60_000 };
     let max_grind = if ctx.is_quick() { 16 } else { 21 };
     for k in 1..=n_inst {
         if !ctx.mine(k) {
